@@ -877,6 +877,31 @@ func runContractV2(s *Session, ops []cop) {
 						break
 					}
 				}
+				// what such prices add up to: the renter's cost of a usage is the sum of its
+				// parts, or the largest amount there is when the sum is beyond that
+				{
+					small := []types.Currency{types.ZeroCurrency, types.NewCurrency64(1), types.Siacoins(1), types.NewCurrency(0, 1<<62)}
+					var parts [5]types.Currency
+					for i := range parts {
+						if op.r[i%len(op.r)]>>(3+i)&1 == 0 {
+							parts[i] = ext[(op.r[i%len(op.r)]>>8)%len(ext)]
+						} else {
+							parts[i] = small[(op.r[i%len(op.r)]>>8)%len(small)]
+						}
+					}
+					u := rhp4.Usage{RPC: parts[0], Storage: parts[1], Egress: parts[2], Ingress: parts[3], AccountFunding: parts[4], RiskedCollateral: types.MaxCurrency}
+					want := sumBig(parts[0], parts[1], parts[2], parts[3], parts[4])
+					if want.Cmp(bi(types.MaxCurrency)) > 0 {
+						want = bi(types.MaxCurrency)
+						e.inc("c17.usage-beyond-range")
+					}
+					var got types.Currency
+					if pn := guardPanic(func() { got = u.RenterCost() }); pn != "" {
+						bad("constructor-panic", "RenterCost of usage %+v panicked: %s", u, pn)
+					} else if bi(got).Cmp(want) != 0 {
+						bad("usage-cost-sum", "RenterCost of usage (rpc %v, storage %v, egress %v, ingress %v, account funding %v) = %v; its parts add up to %v", parts[0], parts[1], parts[2], parts[3], parts[4], got, want)
+					}
+				}
 			case "hostile":
 				// a renter that sends extreme numbers: the host must answer, whatever it answers
 				ext := []types.Currency{types.MaxCurrency, types.MaxCurrency.Sub(types.NewCurrency64(1)), types.NewCurrency(0, 1<<63), types.NewCurrency(^uint64(0), 0), types.ZeroCurrency, types.NewCurrency64(1)}
@@ -1062,6 +1087,10 @@ func runContractV1(s *Session) {
 	renewPayout := types.Siacoins(uint32(t.Range(1, 300))).Add(types.NewCurrency64(uint64(t.Choose(20000))))
 	newCollateral := pick(t, types.ZeroCurrency, types.Siacoins(uint32(t.Range(1, 100))), types.NewCurrency64(uint64(t.Choose(30000))))
 	extend := uint64(t.Range(0, 300))
+	hostAhead := uint64(0) // the host may know of blocks beyond the renewal's end height: such a renewal is late
+	if t.Chance(1, 4) {
+		hostAhead = uint64(t.Range(1, 400))
+	}
 	expectedNewStorage := uint64(pick(t, 0, 1<<22, 10<<22))
 	if t.Chance(1, 5) {
 		// small contracts: payouts between 2^64 and 10000 x 2^64 hastings, where
@@ -1321,7 +1350,17 @@ func runContractV1(s *Session) {
 			} else {
 				pt := rhp3.HostPriceTable{HostBlockHeight: chain.s.Index.Height, ContractPrice: hs.ContractPrice, CollateralCost: hs.Collateral, MaxCollateral: hs.MaxCollateral,
 					WindowSize: hs.WindowSize, WriteStoreCost: hs.StoragePrice, RenewContractCost: types.NewCurrency64(uint64(extend) * 1000)}
+				if hostAhead > 0 {
+					pt.HostBlockHeight = newEnd + hostAhead
+				}
 				nfc, basePrice, perr = rhp3.PrepareContractRenewal(cr, hAddr, rAddr, renewPayout, types.ZeroCurrency, pt, expectedNewStorage, newEnd)
+				if hostAhead > 0 && perr == nil {
+					// a window starting below the host's height starts in the past for any block the host could still see mined
+					bad("v1-late-renewal", "rhp3 renewal to end height %d prepared without error against a price table at host height %d: window start %d is in the past", newEnd, pt.HostBlockHeight, nfc.WindowStart)
+					perr = errors.New("late")
+				} else if hostAhead > 0 {
+					e.inc("c17.late-renewal-refused")
+				}
 				if perr == nil {
 					renterCost = rhp3.ContractRenewalCost(chain.s, pt, nfc, fee, basePrice)
 				}
